@@ -586,49 +586,74 @@ Proof.
     rewrite Hl; apply header_absolute_path; try assumption; now rewrite eru_method.
 Qed.
 
-(* ------------------------------------------------------------------ (c) relative-path reference: the stale absolute_ *)
-Lemma header_relative_path_stale (rq : request) (reqUrl h : bytes) :
+(* ------------------------------------------------------------------ RFC 3986 5.2.3 merge, as addRelativePath computes it *)
+Lemma upto_last_slash_spec (d seg : bytes) : no_byte SLASH seg = true -> upto_last_slash (d ++ SLASH :: seg) = Some (d ++ [SLASH]).
+Proof.
+  intros Hseg. assert (Hn : upto_last_slash seg = None).
+  { induction seg as [|c seg IH]; cbn [upto_last_slash]; [reflexivity|].
+    cbn [no_byte forallb] in Hseg. apply andb_true_iff in Hseg as [H1 H2]. apply negb_true_iff in H1.
+    unfold no_byte in IH. now rewrite (IH H2), H1. }
+  induction d as [|c d IH]; cbn [app upto_last_slash].
+  - now rewrite Hn, N.eqb_refl.
+  - now rewrite IH.
+Qed.
+
+Lemma add_relative_path_merges (u : uri) (d seg rel : bytes) :
+  u_urn u = false -> u_path u = d ++ SLASH :: seg -> no_byte SLASH seg = true ->
+  u_path (uri_add_relative_path rel u) = d ++ SLASH :: rel.
+Proof.
+  intros Hu Hp Hseg. unfold uri_add_relative_path. rewrite Hu, Hp, (upto_last_slash_spec d seg Hseg). cbn [u_path].
+  now rewrite <- app_assoc.
+Qed.
+
+Lemma add_relative_path_clears_caches (u : uri) (rel : bytes) :
+  u_urn u = false ->
+  u_abs_cache (uri_add_relative_path rel u) = [] /\ u_abspath_cache (uri_add_relative_path rel u) = [].
+Proof. intros Hu. unfold uri_add_relative_path. rewrite Hu. split; reflexivity. Qed.
+
+(* ------------------------------------------------------------------ (c) relative-path reference *)
+Lemma nonempty_dir_app (d h : bytes) : nonempty ((d ++ [SLASH]) ++ h) = true.
+Proof. destruct d; reflexivity. Qed.
+
+Lemma header_relative_path (rq : request) (reqUrl d seg h : bytes) (m : N) :
   (rq_method rq =? pg_METHOD_CONNECT) = false -> u_urn (rq_url rq) = false -> no_nul h = true ->
-  url_is_relative h = true -> (hd0 h =? SLASH) = false -> u_abs_cache (rq_url rq) <> [] ->
-  purge_entries_by_header rq reqUrl (Some h) = purge_entries_by_url (u_abs_cache (rq_url rq)).
+  url_is_relative h = true -> (hd0 h =? SLASH) = false ->
+  u_path (rq_url rq) = d ++ SLASH :: seg -> no_byte SLASH seg = true ->
+  In m (cacheable_ids pg_methods) ->
+  In (m, u_front (rq_url rq) ++ uri_encode pg_PathChars (d ++ SLASH :: h)) (purge_entries_by_header rq reqUrl (Some h)).
 Proof.
-  intros Hm Hu Hnul Hrel Hsl Hc. unfold purge_entries_by_header. rewrite (cstr_id _ Hnul), Hrel, Hm, Hu, Hsl.
-  unfold uri_add_relative_path. rewrite Hu. unfold uri_absolute at 1; cbn [u_abs_cache].
-  destruct (u_abs_cache (rq_url rq)) eqn:E; [congruence|]. reflexivity.
+  intros Hm Hu Hnul Hrel Hsl Hp Hseg Hin. unfold purge_entries_by_header. rewrite (cstr_id _ Hnul), Hrel, Hm, Hu, Hsl.
+  unfold uri_add_relative_path. rewrite Hu, Hp, (upto_last_slash_spec d seg Hseg).
+  unfold uri_absolute, uri_absolute_path, uri_path; cbn [u_abs_cache u_abspath_cache nonempty u_path u_httpx u_front fst snd].
+  rewrite nonempty_dir_app. cbn [negb andb fst snd u_front].
+  replace ((d ++ [SLASH]) ++ h) with (d ++ SLASH :: h) by (now rewrite <- app_assoc).
+  now apply in_purge_by_url.
 Qed.
 
-Lemma all_evicted_are_the_request_url (rq : request) (rp : reply) (s a : bytes) :
-  wf_request rq s a -> purges_others (rq_method rq) = true ->
-  (forall h, rp_location rp = Some h \/ rp_content_location rp = Some h ->
-     no_nul h = true /\ url_is_relative h = true /\ (hd0 h =? SLASH) = false) ->
-  forall k, In k (evicted_keys rq rp) -> snd k = request_uri rq.
+Lemma eru_path (rq : request) : u_path (rq_url (snd (effective_request_uri rq))) = u_path (rq_url rq).
 Proof.
-  intros W Hp Hh k Hk.
+  unfold effective_request_uri. destruct ((rq_method rq =? pg_METHOD_CONNECT) || rq_authority_form rq); [reflexivity|].
+  destruct (rq_url rq) as [fr hx urn p ca cp]. unfold uri_absolute, uri_absolute_path; cbn [u_abs_cache u_abspath_cache].
+  destruct (nonempty ca); [reflexivity|]. destruct (nonempty cp); reflexivity.
+Qed.
+
+Lemma location_relative_path_evicted (rq : request) (rp : reply) (s a d seg h : bytes) (m : N) :
+  wf_request rq s a -> purges_others (rq_method rq) = true -> rp_status rp < STATUS_LIMIT ->
+  no_nul h = true -> url_is_relative h = true -> (hd0 h =? SLASH) = false ->
+  u_path (rq_url rq) = d ++ SLASH :: seg -> no_byte SLASH seg = true ->
+  rp_location rp = Some h \/ rp_content_location rp = Some h ->
+  In m (cacheable_ids pg_methods) ->
+  In (m, s ++ SEP ++ a ++ uri_encode pg_PathChars (d ++ SLASH :: h)) (evicted_keys rq rp).
+Proof.
+  intros W Hp Hs Hnul Hrel Hsl Hpath Hseg Hhdr Hm.
   pose proof (purging_method_not_connect _ Hp) as Hnc.
-  destruct (wf_effective_uri rq s a W Hnc) as (p0 & Hfst & Hreq & _ & Hcache & Hurn & _).
-  assert (Hstale : forall h, rp_location rp = Some h \/ rp_content_location rp = Some h ->
-            forall k, In k (purge_entries_by_header (snd (effective_request_uri rq)) (request_uri rq) (Some h)) -> snd k = request_uri rq).
-  { intros h Hhh k0 Hk0. destruct (Hh h Hhh) as (Hnul & Hrel & Hsl).
-    rewrite header_relative_path_stale in Hk0; try assumption.
-    - apply purge_by_url_snd in Hk0. now rewrite Hk0, Hcache, Hreq.
-    - now rewrite eru_method.
-    - rewrite Hcache. destruct s; discriminate. }
-  apply evicted_keys_cases in Hk as [Hk|[Hk|Hk]]; [exact Hk| |].
-  - destruct (rp_location rp) as [h|] eqn:El; [|destruct Hk]. exact (Hstale h (or_introl eq_refl) k Hk).
-  - destruct (rp_content_location rp) as [h|] eqn:El; [|destruct Hk]. exact (Hstale h (or_intror eq_refl) k Hk).
-Qed.
-
-(* every relative-path reference leaves every other cached URL of the store in place: the named sibling included *)
-Lemma relative_path_reference_names_nothing (rq : request) (rp : reply) (s a t : bytes) (m : N) (st : store) :
-  wf_request rq s a -> purges_others (rq_method rq) = true ->
-  (forall h, rp_location rp = Some h \/ rp_content_location rp = Some h ->
-     no_nul h = true /\ url_is_relative h = true /\ (hd0 h =? SLASH) = false) ->
-  t <> request_uri rq ->
-  store_has (evict_all (evicted_keys rq rp) st) (m, t) = store_has st (m, t).
-Proof.
-  intros W Hp Hh Hne. apply not_evicted_stays. intros k' Hk'.
-  pose proof (all_evicted_are_the_request_url rq rp s a W Hp Hh k' Hk') as Hs.
-  destruct (key_eqb (m, t) k') eqn:E; [|reflexivity]. apply key_eqb_eq in E. subst k'. cbn [snd] in Hs. congruence.
+  destruct (wf_effective_uri rq s a W Hnc) as (p0 & _ & _ & _ & _ & Hurn & Hfront).
+  replace (s ++ SEP ++ a ++ uri_encode pg_PathChars (d ++ SLASH :: h))
+    with (u_front (rq_url (snd (effective_request_uri rq))) ++ uri_encode pg_PathChars (d ++ SLASH :: h))
+    by (rewrite Hfront; now rewrite <- !app_assoc).
+  destruct Hhdr as [Hl|Hl]; [apply evicted_by_location| apply evicted_by_content_location]; try assumption;
+    rewrite Hl; apply (header_relative_path _ _ d seg); try assumption;
+    try (now rewrite eru_method); now rewrite eru_path.
 Qed.
 
 (* ------------------------------------------------------------------ (d) other authorities are left alone *)
@@ -652,30 +677,6 @@ Proof.
     - destruct (rp_content_location rp) as [h|] eqn:El; [|destruct Hk]. rewrite (Hnone h (or_intror eq_refl)) in Hk. destruct Hk. }
   destruct (key_eqb (m, t) k') eqn:E; [|reflexivity]. apply key_eqb_eq in E. subst k'. cbn [snd] in Hs. congruence.
 Qed.
-
-(* ------------------------------------------------------------------ RFC 3986 5.2.3 merge, as addRelativePath computes it *)
-Lemma upto_last_slash_spec (d seg : bytes) : no_byte SLASH seg = true -> upto_last_slash (d ++ SLASH :: seg) = Some (d ++ [SLASH]).
-Proof.
-  intros Hseg. assert (Hn : upto_last_slash seg = None).
-  { induction seg as [|c seg IH]; cbn [upto_last_slash]; [reflexivity|].
-    cbn [no_byte forallb] in Hseg. apply andb_true_iff in Hseg as [H1 H2]. apply negb_true_iff in H1.
-    unfold no_byte in IH. now rewrite (IH H2), H1. }
-  induction d as [|c d IH]; cbn [app upto_last_slash].
-  - now rewrite Hn, N.eqb_refl.
-  - now rewrite IH.
-Qed.
-
-Lemma add_relative_path_merges (u : uri) (d seg rel : bytes) :
-  u_urn u = false -> u_path u = d ++ SLASH :: seg -> no_byte SLASH seg = true ->
-  u_path (uri_add_relative_path rel u) = d ++ SLASH :: rel.
-Proof.
-  intros Hu Hp Hseg. unfold uri_add_relative_path. rewrite Hu, Hp, (upto_last_slash_spec d seg Hseg). cbn [u_path].
-  now rewrite <- app_assoc.
-Qed.
-
-Lemma add_relative_path_keeps_caches (u : uri) (rel : bytes) :
-  u_abs_cache (uri_add_relative_path rel u) = u_abs_cache u /\ u_abspath_cache (uri_add_relative_path rel u) = u_abspath_cache u.
-Proof. unfold uri_add_relative_path. destruct (u_urn u); split; reflexivity. Qed.
 
 (* ------------------------------------------------------------------ requests built by the correspondence glue are well-formed *)
 Lemma request_of_wf (relaxed : bool) (meth s a path : bytes) :
@@ -785,8 +786,6 @@ Proof. vm_compute. reflexivity. Qed.
 
 Ltac witness := split; [eexists; split; vm_compute; reflexivity | vm_compute; reflexivity].
 
-Lemma relative_path_reference_stays : stays_cached (B [118]).                                   (* v *)
-Proof. witness. Qed.
 Lemma dot_segments_stay :
   stays_cached (B [47;100;47;46;47;118]) /\ stays_cached (B [47;100;47;120;47;46;46;47;118]) /\  (* /d/./v  /d/x/../v *)
   stays_cached (B [46;47;118]) /\ stays_cached (B [46;46;47;100;47;118]).                        (* ./v  ../d/v *)
@@ -823,8 +822,9 @@ Proof. repeat split; try (eexists; split; vm_compute; reflexivity); vm_compute; 
 Lemma plain_forms_evicted :
   store_has (evict_all (evicted_keys w_rq (w_rp (B [47;100;47;118]))) [(pg_METHOD_GET, w_target)]) (pg_METHOD_GET, w_target) = false /\
   store_has (evict_all (evicted_keys w_rq (w_rp (B [104;116;116;112;58;47;47;104;58;56;47;100;47;118]))) [(pg_METHOD_GET, w_target)])
-            (pg_METHOD_GET, w_target) = false.
-Proof. split; vm_compute; reflexivity. Qed.
+            (pg_METHOD_GET, w_target) = false /\
+  store_has (evict_all (evicted_keys w_rq (w_rp (B [118]))) [(pg_METHOD_GET, w_target)]) (pg_METHOD_GET, w_target) = false.   (* Location: v *)
+Proof. repeat split; vm_compute; reflexivity. Qed.
 
 (* ------------------------------------------------------------------ the spec agrees with the code on references in
    normal form (nothing for remove_dot_segments / fragment stripping / case folding to do) *)
@@ -890,9 +890,65 @@ Proof.
   - apply (location_same_authority_evicted rq rp s a s p2 m); try assumption. exact (wf_scheme _ _ _ W).
 Qed.
 
+Lemma no_byte_rev (c : N) (l : bytes) : no_byte c (rev l) = no_byte c l.
+Proof.
+  induction l as [|x l IH]; [reflexivity|]. cbn [rev]. rewrite no_byte_app, IH. unfold no_byte; cbn [forallb].
+  now rewrite andb_true_r, andb_comm.
+Qed.
+
+Lemma dir_of_spec (d seg : bytes) : no_byte SLASH seg = true -> dir_of (d ++ SLASH :: seg) = d ++ [SLASH].
+Proof.
+  intros Hseg. unfold dir_of. rewrite rev_app_distr. cbn [rev]. rewrite <- app_assoc. cbn [app].
+  rewrite span_until_slash by (now rewrite no_byte_rev). cbn [snd rev]. now rewrite rev_involutive.
+Qed.
+
+Lemma relative_ref_has_no_scheme (h : bytes) : forall acc, first_segment_has_no_colon h = true -> scheme_split h acc = None.
+Proof.
+  induction h as [|c h IH]; intros acc H; cbn [scheme_split first_segment_has_no_colon] in *; [reflexivity|].
+  destruct ((c =? SLASH) || (c =? 63) || (c =? 35)) eqn:E.
+  - destruct (c =? COLON) eqn:Ec; [|reflexivity].
+    apply N.eqb_eq in Ec; subst c. vm_compute in E. discriminate.
+  - destruct (c =? COLON); [discriminate| now apply IH].
+Qed.
+
+(* a relative-path reference (RFC 3986 5.2.3 merge) in normal form names exactly the URL evicted *)
+Lemma relative_path_reference_in_normal_form (rq : request) (rp : reply) (s a d seg h : bytes) (m : N) :
+  wf_request rq s a -> purges_others (rq_method rq) = true -> rp_status rp < 400 ->
+  u_path (rq_url rq) = d ++ SLASH :: seg -> no_byte SLASH seg = true ->
+  h <> [] -> (hd0 h =? SLASH) = false -> url_is_relative h = true ->
+  strip_fragment h = h -> remove_dot_segments (d ++ SLASH :: h) = d ++ SLASH :: h ->
+  forallb pg_PathChars (d ++ SLASH :: h) = true ->
+  rp_location rp = Some h \/ rp_content_location rp = Some h ->
+  In m (cacheable_ids pg_methods) ->
+  names_same_authority s a (uri_path (rq_url rq)) h (s ++ SEP ++ a ++ d ++ SLASH :: h) /\
+  In (m, s ++ SEP ++ a ++ d ++ SLASH :: h) (evicted_keys rq rp).
+Proof.
+  intros W Hp Hs Hpath Hseg Hne Hsl Hrel Hfrag Hdots Hchars Hhdr Hm.
+  assert (Hnulh : no_nul h = true).
+  { apply pathchars_no_nul in Hchars. unfold no_nul in *. rewrite no_byte_app in Hchars.
+    apply andb_true_iff in Hchars as [_ H2]. unfold no_byte in *. cbn [forallb] in H2. now apply andb_true_iff in H2 as [_ H2]. }
+  split.
+  - exists (d ++ SLASH :: h). split; [|reflexivity]. unfold rfc_resolve. rewrite Hfrag.
+    destruct h as [|x h']; [congruence|]. cbn [hd0] in Hsl.
+    assert (Hfs : first_segment_has_no_colon (x :: h') = true).
+    { unfold url_is_relative in Hrel. now rewrite Hsl in Hrel. }
+    rewrite (relative_ref_has_no_scheme _ [] Hfs).
+    assert (H2 : starts2 (x :: h') = None).
+    { destruct h' as [|y h'']; cbn [starts2]; [reflexivity|]. now rewrite Hsl. }
+    rewrite H2, Hsl. unfold merge_paths, uri_path. rewrite Hpath.
+    replace (nonempty (d ++ SLASH :: seg)) with true by (destruct d; reflexivity). cbn [negb andb].
+    rewrite (dir_of_spec d seg Hseg).
+    destruct (d ++ [SLASH]) eqn:Ed; [destruct d; discriminate|]. rewrite <- Ed.
+    replace ((d ++ [SLASH]) ++ x :: h') with (d ++ SLASH :: x :: h') by (now rewrite <- app_assoc).
+    now rewrite Hdots.
+  - rewrite <- (uri_encode_id pg_PathChars (d ++ SLASH :: h) Hchars).
+    apply (location_relative_path_evicted rq rp s a d seg); assumption.
+Qed.
+
 Lemma normal_form_examples :
   strip_fragment (B [47;100;47;118]) = B [47;100;47;118] /\ remove_dot_segments (B [47;100;47;118]) = B [47;100;47;118] /\
-  forallb pg_PathChars (B [47;100;47;118]) = true /\ map lower w_http = w_http /\ map lower w_auth = w_auth.
+  forallb pg_PathChars (B [47;100;47;118]) = true /\ map lower w_http = w_http /\ map lower w_auth = w_auth /\
+  u_path (rq_url w_rq) = B [47;100] ++ SLASH :: B [117] /\ url_is_relative (B [118]) = true /\ strip_fragment (B [118]) = B [118].
 Proof. repeat split; vm_compute; reflexivity. Qed.
 
 Lemma method_token_examples :
